@@ -3,7 +3,7 @@
    user-code oracle `body` (called with ORIGINAL parameter names) and output picker `pick`. *)
 From Verif Require Import Base.Prelude Base.StrOrd Base.StrUtil Base.Graph Model.Pipe Model.Rewrite Model.Alias
   Proofs.GraphFacts Proofs.RewriteFacts Proofs.AliasFacts Proofs.NestFacts Proofs.SplitFacts Proofs.MultiNestFacts Proofs.SimplifyFacts Proofs.C10Witness
-  Proofs.AliasOwnFacts Proofs.AliasSepFacts Corr.PipeObs Corr.Run_C10 Proofs.C10Capstone.
+  Proofs.AliasOwnFacts Proofs.AliasSepFacts Corr.PipeObs Corr.Run_C10 Proofs.C10Capstone Proofs.PipeFacts Proofs.NRunFacts.
 
 (* ---------- renaming ---------- *)
 (* rename_preserves: for a renaming that is one-to-one on the names involved, the renamed pipeline evaluates the
@@ -254,6 +254,62 @@ Theorem C10_neval_lift : forall body pick fuel p kw o,
   neval body pick fuel (lift p) kw o = eval body pick fuel p kw o.
 Proof. exact neval_lift. Qed.
 Print Assumptions C10_neval_lift.
+
+(* ---------- the run model of this layer vs the specification (run_eq_eval for nodes) ---------- *)
+(* The correspondence executes Rewrite.nrun (Pipeline.run on nodes: memo, used-parameter set, call log, the inner
+   runs of nested functions); the theorems of this property speak about Rewrite.neval.  They are tied by proof:
+   (1) without nested functions nrun is literally Pipe.run on the flattened keywords, so by the master theorem of C02
+       it equals neval - errors included; the only difference is the rejection of surplus keywords; *)
+Theorem C10_nrun_lift : forall body pick p o kw fk, flatten_scopes p kw = Ok fk ->
+  existsb (fun kv => str_eqb (fst kv) o) kw = false -> aget (flat_vals fk) o = None ->
+  nrun body pick (lift p) o kw
+  = (strip (fst (Pipe.run body pick p o (flat_vals fk) false)), snd (Pipe.run body pick p o (flat_vals fk) false)).
+Proof. exact nrun_lift. Qed.
+Print Assumptions C10_nrun_lift.
+
+Theorem C10_nrun_eq_neval_lifted : forall body pick p o kw fk, wf_pipeline p -> is_output p o = true ->
+  flatten_scopes p kw = Ok fk -> existsb (fun kv => str_eqb (fst kv) o) kw = false -> aget (flat_vals fk) o = None ->
+  fst (nrun body pick (lift p) o kw) =
+    match neval body pick (nfuel (lift p)) (lift p) (flat_vals fk) o with
+    | Err e => Err e
+    | Ok v => if subset_str (akeys (flat_vals fk)) (param_names_needed p (flat_vals fk) o) then Ok v
+              else Err UnusedParametersError
+    end.
+Proof. exact nrun_eq_neval_lifted. Qed.
+Print Assumptions C10_nrun_eq_neval_lifted.
+
+(* (2) with nested functions to ANY depth (nwf: unique outputs, consistent defaults, the original parameter names of a
+       nested function are not among the outputs it exports - at every level): every value that nrun returns is the
+       value of the specification.
+   run_eq_eval_nodes_partial - the full statement would be
+       fst (nrun p o kw) = match neval (nfuel p) p flat o with Err e => Err e | Ok v => <surplus-keyword check> end;
+   proved here is the direction value-of-run => value-of-spec (so a value observed in the correspondence is the
+   value the theorems speak about).  NOT proved for nested nodes: that nrun returns a value whenever neval does
+   (the inner run reaches every exported output and uses every argument: a reachability argument about the unique
+   leaf of the inner pipeline) and the agreement of the error kinds; both remain checked by the correspondence. *)
+Theorem C10_run_eq_eval_nodes_partial : forall body pick p o kw v lg, nwf p ->
+  nrun body pick p o kw = (Ok v, lg) ->
+  exists fk, flatten_scopes (funcs p) kw = Ok fk
+    /\ (aget (flat_vals fk) o = None -> exists F, neval body pick F p (flat_vals fk) o = Ok v)
+    /\ (forall w, aget (flat_vals fk) o = Some w -> w = v).
+Proof. exact nrun_value_sound. Qed.
+Print Assumptions C10_run_eq_eval_nodes_partial.
+
+(* the invariant behind it: the memo of a run holds the supplied keywords and, for every other key, the value of
+   the specification - through the inner runs of nested functions *)
+Theorem C10_nrun_out_sound : forall body pick n p kw st o st' v, nwf p -> Inv body pick p kw st ->
+  nrun_out body pick n p kw st o = (st', Ok v) -> Inv body pick p kw st' /\ aget (res st') o = Some v.
+Proof. exact nrun_out_sound. Qed.
+Print Assumptions C10_nrun_out_sound.
+
+Example C10_example_nrun :
+  let p := lift [mkf (s "f") [s "a"] [(s "x", s "x")] [] [] false;
+                 mkf (s "g") [s "b"] [(s "a", s "a"); (s "y", s "y")] [] [] false;
+                 mkf (s "h") [s "c"] [(s "b", s "b"); (s "a", s "a")] [] [] false] in
+  exists p', nest [s "a"; s "b"] (Some [s "a"; s "b"]) p = Ok p' /\ nwf p'
+    /\ fst (nrun Sym.body Sym.pick p' (s "c") (dotted [(s "x", s "X"); (s "y", s "Y")])) = Ok (s "h(b=g(a=f(x=X),y=Y),a=f(x=X))")
+    /\ neval Sym.body Sym.pick 5 p' [(s "x", s "X"); (s "y", s "Y")] (s "c") = Ok (s "h(b=g(a=f(x=X),y=Y),a=f(x=X))").
+Proof. exact nrun_instance. Qed.
 
 (* ---------- nest_funcs ---------- *)
 (* nest_preserves, in two halves (values are compared up to fuel: `neval n .. = Ok v` for some n).
